@@ -29,7 +29,10 @@ WEAK = {  # switch -> the invariant TLC must refute with it (checked alone: dete
     "RedoAlwaysCountsPending": ["PendingCounterExact"],
     # bpRequester.setBlock takes a block from the peer asked before the last reset: the requester has ONE owner,
     # the block of the old (lying) peer is attributed to the newly asked (honest) one
-    "AcceptsFromPreviousPeer": ["AcceptOnlyFromAsked"],   # a genuine nil precommit re-labelled with another validator's address
+    "AcceptsFromPreviousPeer": ["AcceptOnlyFromAsked"],
+    # bpRequester.reset keeps peerID: a requester that has NO owner (its peer removed, nobody else picked yet) still
+    # takes a late block of that peer
+    "ResetKeepsOwner": ["AcceptOnlyFromAsked"],   # a genuine nil precommit re-labelled with another validator's address
     # ValidateBlock(first) and the part-set-header comparison each catch a block whose LastCommit differs only in
     # fields Commit.Hash() does not cover (commit height / BlockID); the property breaks only when BOTH are gone
     "NoValidateNoPartSet": ["OnlyCanonical"],
@@ -129,6 +132,21 @@ def sched_reassign(T):
                  {"a": "Retry", "h": h}, {"a": "WaitAsked", "p": "h1", "h": h},
                  {"a": "Response", "p": "l1", "h": h, "kind": kind}]
         out.append({"id": "reassign-late-%s-%d" % (kind, h), "src": "reassign", "T": T, "peers": P2, "steps": steps})
+    return out
+
+
+def sched_unassigned(T):
+    """The unassigned window: the liar is the only peer, gets the requests, is removed (timeout); it reconnects
+    under the same id (no status: it is not in the pool, no requester has an owner) and its late answer arrives;
+    then the honest peer joins and answers."""
+    out = []
+    for kind in ["W", "H", "padBad"]:
+        for h in (1, 2):
+            steps = [{"a": "Join", "p": "l1"}, {"a": "Status", "p": "l1", "base": 1, "height": T},
+                     {"a": "WaitReq", "p": "l1", "h": T}, {"a": "Timeout", "p": "l1"},
+                     {"a": "Join", "p": "l1"}, {"a": "Late", "p": "l1", "h": h, "kind": kind},
+                     {"a": "Join", "p": "h1"}, {"a": "Status", "p": "h1", "base": 1, "height": T}]
+            out.append({"id": "unassigned-%s-%d" % (kind, h), "src": "unassigned", "T": T, "peers": P2, "steps": steps})
     return out
 
 
@@ -430,11 +448,11 @@ def run(ctx):
     # ---- 3. run on the real code -----------------------------------------------------------
     batches = []
     if quick:
-        batches.append(("A", VALS_A, sched_churn() + sched_reassign(4) + sched_shrink(4) + sched_matrix(4) + sched_late(4) + sched_status(4) + attack + sims + sched_pairs(4, rng, 16)
+        batches.append(("A", VALS_A, sched_churn() + sched_reassign(4) + sched_unassigned(4) + sched_shrink(4) + sched_matrix(4) + sched_late(4) + sched_status(4) + attack + sims + sched_pairs(4, rng, 16)
                         + sched_random(seed, 30)))
         batches.append(("C", VALS_C, sched_matrix(3)[::2] + sched_late(3) + sched_reassign(3) + sched_random(seed + 1, 16)))
     else:
-        batches.append(("A", VALS_A, sched_churn() + sched_reassign(4) + sched_reassign(5) + sched_shrink(4) + sched_shrink(5) + sched_matrix(4) + sched_matrix(5) + sched_late(4) + sched_late(5) + sched_status(4) + sched_status(5) + attack + sims
+        batches.append(("A", VALS_A, sched_churn() + sched_reassign(4) + sched_reassign(5) + sched_unassigned(4) + sched_unassigned(5) + sched_shrink(4) + sched_shrink(5) + sched_matrix(4) + sched_matrix(5) + sched_late(4) + sched_late(5) + sched_status(4) + sched_status(5) + attack + sims
                         + sched_pairs(4, rng, 150) + sched_random(seed, 350)))
         batches.append(("C", VALS_C, sched_matrix(4) + sched_late(4) + sched_pairs(3, rng, 50) + sched_random(seed + 1, 150)))
         batches.append(("B", VALS_B, sched_matrix(3) + sched_late(3) + sched_random(seed + 2, 60)))
